@@ -44,6 +44,9 @@ def gen_scenarios(seed, tier):
     rng = random.Random(seed * 67867967 + 11)
     n = 2400 if tier == "quick" else 40000
     for i in range(n):
+        if i % 12 == 7:
+            yield gen_racing_shutdowns(rng, i)
+            continue
         if i % 2 == 0:
             kind = WORKER_KINDS[(i // 2) % 4]
             d = sc.gen_stack(rng, i, kinds=[kind], max_layers=1, ops=("submit", "submit", "sleep", "shutdown", "result", "cancel"),
@@ -62,9 +65,36 @@ def gen_scenarios(seed, tier):
         yield d
 
 
+def gen_racing_shutdowns(rng, i):
+    """two or three threads call shutdown() on the same executor at the same virtual instant (work may be outstanding, a submit may
+    be in flight): exactly one of them shuts the wrapped executor down, whatever the interleaving"""
+    kind = rng.choice(["map", "flat_map", "retry", "poll", "throttle", "timeout", "cancel_on_shutdown"])
+    lay = sc.gen_layer(rng, kind)
+    if kind == "throttle":
+        lay[1]["block"] = False
+    t0 = rng.choice([0.0, 0.5, 1.0, 2.0])
+    wt = rng.choice([True, False])       # the same arguments from every caller: whoever wins, the delegate must see these
+    clients = [[["submit", "k0", [[["sleep", rng.choice([0.0, 1.0, 3.0])], ["ret", 1]]]], ["sleep", t0], ["shutdown", wt]],
+               [["sleep", t0], ["shutdown", wt]]]
+    if rng.random() < 0.4:
+        clients.append([["sleep", t0], ["shutdown", wt]])
+    if rng.random() < 0.4:
+        clients.append([["sleep", t0], ["submit", "k1", [[["ret", 2]]]]])
+    d = dict(kind="stack", idx=i, base=rng.choice(["simpool1", "simpool2", "simsync"]), layers=[lay], clients=clients, tail=15.0,
+             seed=rng.randrange(1 << 30), family="racing-shutdowns")
+    from props.common import schedule_modes
+    d.update(schedule_modes(rng))
+    return d
+
+
 def run_one(desc):
     s, ctx, out = sc.run_stack(desc, props=("C11", "C04"))
     hits = list(out.get("C11", []))
+    if desc.get("family") == "racing-shutdowns":
+        # the property's "worker has exited when shutdown(wait=True) returns" is about the call that performs the shutdown; a second
+        # caller arriving while the first is still joining returns at once (ShutdownHelper says "already shut down") - by design,
+        # and the property's single shutdown caller never sees it
+        hits = [h for h in hits if h["sig"] != "C11/worker-alive-after-shutdown"]
     blocks, verd = [], []
     if desc.get("replay_model") == "shutdown":
         if s.end_reason == "limit":
